@@ -2,6 +2,16 @@ import Qryn.Proofs.Confine
 import Qryn.Read.Tables
 import Qryn.Gen.DateSites
 import Qryn.Proofs.LogQLPlan
+import Qryn.Proofs.ConfineMetric
+import Qryn.LogQL.PostMetric
+import Qryn.Proofs.ConfineTrace
+import Qryn.Proofs.ConfineRead
+import Qryn.Proofs.LogQLMetric
+import Qryn.Proofs.TraceQLLimit
+import Qryn.Proofs.TraceQLTree
+import Qryn.Proofs.PromSelect
+import Qryn.Proofs.ProfSelector
+import Qryn.Prof.SelectorCtx
 /-! # C13 — every read is confined to the requested time window and signal type
 
 `Confine.confined` is a structural predicate on statements (every base-table scan carries timestamp
@@ -101,4 +111,270 @@ namespace Qryn.C13
     zone, so `date_lower_covers`/`date_upper_covers` (stated in UTC days) apply for every zone offset. -/
 theorem date_bounds_zone_free :
     Qryn.Gen.dateSites.all (fun s => s.2) = true ∧ Qryn.Gen.fromDateOfEnd = [] := by decide
+end Qryn.C13
+
+/-! ## the LogQL metric planner (`planMetric`, tied byte for byte to `clickhouse_planner.Plan(script, true)` by C08's
+    text stream and by the `model-metric` stream of this property) -/
+namespace Qryn.C13
+open Qryn Qryn.Sql Qryn.LogQL Qryn.Confine
+
+/-- **all_scans_confined_metric.** Every statement the LogQL metric planner model produces — range aggregations
+    over the samples table or, in the shortcut, over the 15 s rollup; unwrap; vector aggregation by/without
+    (incl. its extra time_series scan); topk; comparisons; step fix; labels join — is confined to the planner
+    context's window and signal type: the samples scan by the exact bounds `[From, To)` (slack 0), the
+    metrics_15s scan by the two ends rounded to the 15 s storage grid (slack 15 s − 1 ns, `metricSlack`), every
+    index scan by the covering date bound and the type filter or by the fingerprints of such a scan.
+    For every query of the fragment, window, step, both table layouts. -/
+theorem all_scans_confined_metric (cfg : Cfg) (c : MCtx) (h : MetricCfg cfg c) (q : MetricQuery) :
+    confined cfg (winMetric c q) (planMetric c q) = true :=
+  planMetric_confined cfg c h q
+
+/-- **metric_slack_bounded.** The slack `all_scans_confined_metric` needs is 0 unless the metrics_15s shortcut is
+    taken; then it is below 15 s, which is at most the range duration (the shortcut is only taken for ranges
+    that are whole multiples of 15 s). -/
+theorem metric_slack_bounded (q : MetricQuery) :
+    0 ≤ metricSlack q ∧ metricSlack q < 15000000000 ∧
+    (takesShortcut q = false → metricSlack q = 0) ∧
+    (takesShortcut q = true → metricSlack q < q.rangeAgg.durNs ∧ q.rangeAgg.durNs % 15000000000 = 0) := by
+  unfold metricSlack
+  refine ⟨by split <;> decide, by split <;> decide, fun h => by simp [h], fun h => ?_⟩
+  simp only [h, if_true]
+  simp only [takesShortcut] at h
+  cases hk : q.rangeAgg.kind with
+  | lra fn =>
+    simp only [hk, Bool.and_eq_true, beq_iff_eq, slot15] at h
+    obtain ⟨⟨⟨_, h1⟩, h2⟩, _⟩ := h
+    have h1 := of_decide_eq_true h1
+    exact ⟨by omega, h2⟩
+  | unwrap fn l => simp [hk] at h
+
+/-- **shortcut_bounds_on_grid.** The literal bounds of the metrics_15s scan are the ends of the window rounded
+    with Go's truncating division: each differs from the end it is computed from by less than 15 s, and for
+    times after 1970 the lower one is the start of the 15 s slot holding `From` (never above it) and the upper
+    one is never above `To`. -/
+theorem shortcut_bounds_on_grid (t : Int) :
+    t - 15000000000 < Int.tdiv t slot15 * slot15 ∧ Int.tdiv t slot15 * slot15 < t + 15000000000 ∧
+    (0 ≤ t → Int.tdiv t slot15 * slot15 ≤ t) := by
+  rw [slot15_val]; exact tdiv_grid t 15000000000 (by decide)
+
+/-- **metric_window_widening.** The window `FixPeriodPlanner` hands to the SQL planners for a range of `d` ns
+    (`fixWindow`, C08) widens the requested `[start, end)` to the enclosing range buckets and not further:
+    the new start is the start of the bucket holding `start` (less than `d` before it), the new end is the end
+    of the bucket holding `end` (at most `d` after it). Times after 1970. -/
+theorem metric_window_widening (start end_ d : Int) (hd : 0 < d) (hs : 0 ≤ start) (he : 0 ≤ end_) :
+    start - d < (fixWindow start end_ d).1 ∧ (fixWindow start end_ d).1 ≤ start ∧
+    end_ < (fixWindow start end_ d).2 ∧ (fixWindow start end_ d).2 ≤ end_ + d := by
+  obtain ⟨a1, _, a3⟩ := tdiv_grid start d hd
+  obtain ⟨b1, _, b3⟩ := tdiv_grid end_ d hd
+  have := a3 hs
+  have := b3 he
+  simp only [fixWindow, hd, if_true]
+  refine ⟨a1, by omega, by omega, by omega⟩
+
+/-- **shortcut_adds_no_widening.** On a window produced by `fixWindow` for a range that is a whole multiple of
+    15 s (the only ranges the shortcut is taken for) the 15 s rounding of the metrics_15s scan changes nothing:
+    its bounds are exactly the bucket-aligned window. So for a range query the rows read lie in the requested
+    window widened to the enclosing range buckets, whichever table serves it. -/
+theorem shortcut_adds_no_widening (start end_ : Int) (m : Int) :
+    let d := m * 15000000000
+    Int.tdiv (Int.tdiv start d * d) slot15 * slot15 = Int.tdiv start d * d ∧
+    Int.tdiv (Int.tdiv end_ d * d + d) slot15 * slot15 = Int.tdiv end_ d * d + d := by
+  intro d
+  rw [slot15_val]
+  have e1 : Int.tdiv start d * d = (Int.tdiv start d * m) * 15000000000 := by
+    show Int.tdiv start d * (m * 15000000000) = _
+    rw [Int.mul_assoc]
+  have e2 : Int.tdiv end_ d * d + d = ((Int.tdiv end_ d + 1) * m) * 15000000000 := by
+    show Int.tdiv end_ d * (m * 15000000000) + m * 15000000000 = _
+    rw [Int.add_mul, Int.one_mul, Int.add_mul, Int.mul_assoc]
+  rw [e1, e2, Int.mul_tdiv_cancel _ (by decide), Int.mul_tdiv_cancel _ (by decide)]
+  exact ⟨rfl, rfl⟩
+
+-- non-vacuity: the hypotheses of all_scans_confined_metric are satisfiable by the real table names
+example : MetricCfg ⟨fun t => if t = "samples_v3" ∨ t = "metrics_15s" then .data else if t = "time_series" ∨ t = "time_series_gin" then .index else .other, fun _ => true, fun _ => false⟩
+    ⟨⟨100, 200, 10, false, 1, false, "time_series_gin", "samples_v3", "time_series", "time_series"⟩, 5, "metrics_15s"⟩ := by
+  constructor
+  · constructor <;> decide
+  · decide
+
+end Qryn.C13
+
+/-! ## the TraceQL planner (`TraceQL.plan`, `planTags`, `planValues`, tied byte for byte to
+    `clickhouse_transpiler.Plan/PlanTagsV2/PlanValuesV2` by C11's text streams and by the `model-traceql` stream here) -/
+namespace Qryn.C13
+open Qryn Qryn.Sql Qryn.Confine
+
+/-- **all_scans_confined_traceql.** For every script the TraceQL planner model accepts — one selector, chains of
+    `&&` / `||` of any length and nesting (set operations whose operands carry their own WITH lists), `{}`,
+    aggregators, the random filter of complex request portions — every base-table scan of the statement is
+    confined to the request's window: the attribute-index scans by the UTC date range covering `[From, To]`
+    (and the timestamp bounds), the attribute-less span scans by timestamp bounds, and the span-table scans
+    that fetch the result only through trace ids selected by those scans. `confinedDeep` is the predicate the
+    driver evaluates on the dumps of the real plans (with fuel 64); it holds for all sufficiently large fuel. -/
+theorem all_scans_confined_traceql (cfg : Cfg) (c : TraceQL.Ctx) (h : TraceCfg cfg c) (script : TraceQL.Script) (s : Sel)
+    (hs : TraceQL.plan c script = .ok s) : ∃ n, ∀ f, n ≤ f → confinedDeep cfg (winT c) f s = true :=
+  (plan_good cfg c h script s hs).confined
+
+/-- **all_scans_confined_traceql_tags.** The same for the tag-names statement (`PlanTagsV2`). -/
+theorem all_scans_confined_traceql_tags (cfg : Cfg) (c : TraceQL.Ctx) (h : TraceCfg cfg c) (script : TraceQL.Script) (s : Sel)
+    (hs : TraceQL.planTags c script = .ok s) : ∃ n, ∀ f, n ≤ f → confinedDeep cfg (winT c) f s = true :=
+  (planTags_good cfg c h script s hs).confined
+
+/-- **all_scans_confined_traceql_values.** … and for the tag-values statement (`PlanValuesV2`), both its forms: the
+    key/value table scanned by the date range `[From − 30 min, To]`, or the attribute index restricted by the
+    selector. -/
+theorem all_scans_confined_traceql_values (cfg : Cfg) (c : TraceQL.Ctx) (h : TraceCfg cfg c) (kvTable : String)
+    (hkv : cfg.kind kvTable = .index) (key : Bytes) (script : TraceQL.Script) (s : Sel)
+    (hs : TraceQL.planValues c kvTable key script = .ok s) : ∃ n, ∀ f, n ≤ f → confinedDeep cfg (winT c) f s = true :=
+  (planValues_good cfg c h kvTable hkv key script s hs).confined
+
+/-- **confinedDeep_fuel_mono.** More fuel never changes a positive verdict of `confinedDeep` (fuel only bounds the
+    nesting of set operations it follows), so the `∃ n` above is a threshold. -/
+theorem confinedDeep_fuel_mono (cfg : Cfg) (w : Window) (f f' : Nat) (s : Sel) (hle : f ≤ f')
+    (h : confinedDeep cfg w f s = true) : confinedDeep cfg w f' s = true :=
+  confinedDeep_mono cfg w hle h
+
+-- non-vacuity: the planner succeeds on a script with `&&`, and the hypotheses on the tables are satisfiable
+example : (match TraceQL.plan ⟨100, 200, 0, 10, false, "tempo_traces_attrs_gin", "tempo_traces_attrs_gin_dist", "tempo_traces", "tempo_traces_dist", 0, 0, []⟩
+    [(⟨some (.leaf ⟨".a", .eq, .str [34, 98, 34] (some [98])⟩), none⟩, .and),
+     (⟨some (.leaf ⟨"duration", .gt, .dur ⟨false, [1], false, []⟩ .s⟩), none⟩, .none)] with | .ok _ => true | .error _ => false) = true := by
+  decide +kernel
+example : TraceCfg ⟨fun t => if t = "tempo_traces" ∨ t = "tempo_traces_dist" then .data else if t = "tempo_traces_attrs_gin" ∨ t = "tempo_traces_attrs_gin_dist" then .index else .other,
+      fun _ => false, fun t => t = "tempo_traces" ∨ t = "tempo_traces_dist"⟩
+    ⟨100, 200, 0, 10, false, "tempo_traces_attrs_gin", "tempo_traces_attrs_gin_dist", "tempo_traces", "tempo_traces_dist", 0, 0, []⟩ := by
+  constructor <;> decide
+
+end Qryn.C13
+
+/-! ## Loki series / label values, Prometheus remote read, Pyroscope selector -/
+namespace Qryn.C13
+open Qryn Qryn.Sql Qryn.LogQL Qryn.Confine
+
+/-- **all_scans_confined_series.** `SeriesPlanner.Process` (GET /loki/api/v1/series) over every stream selector
+    (`PlanFingerprints` plans the matchers only): the time_series scan carries `date ≥ date(From − 30 min)`,
+    `date ≤ date(To)` (UTC) and the type filter, the fingerprint sub-query the covering lower date bound and the
+    type filter. Both table layouts. -/
+theorem all_scans_confined_series (cfg : Cfg) (c : Ctx) (h : LokiCfg cfg c) (ms : List Matcher) :
+    confined cfg (winOf c) (planSeries c ms) = true :=
+  planSeries_confined cfg c h ms
+
+/-- **all_scans_confined_values.** `ValuesPlanner.Process` (label values), with a selector or without one. -/
+theorem all_scans_confined_values (cfg : Cfg) (c : Ctx) (h : LokiCfg cfg c) (key : Bytes) (ms : Option (List Matcher)) :
+    confined cfg (winOf c) (LogQL.planValues c key ms) = true :=
+  planValues_confined cfg c h key ms
+
+/-- **all_scans_confined_prom.** The statements of the Prometheus remote-read path, for every matcher list and
+    every `SelectHints` (every function name, step and range): the raw-sample statement of
+    `TranspileLabelMatchers` (with the instant-vector wrapper and the step filter of `processHints`) scans
+    samples with `From ≤ timestamp_ns ≤ To` and the metrics type, the rollup statement of
+    `GetLabelMatchersDownsampleRequest` scans metrics_15s with `From < timestamp_ns ≤ To` and the type; the
+    label index is scanned with the covering date bound and the type. No slack. -/
+theorem all_scans_confined_prom (cfg : Cfg) (c : Ctx) (h : LokiCfg cfg c) (m15 : String) (hm : cfg.kind m15 = .data)
+    (hh : Prom.Hints) (ms : List Matcher) :
+    confined cfg (winOf c) (Prom.transpileRaw c hh ms) = true ∧
+    confined cfg (winOf c) (Prom.transpileDown c m15 hh ms) = true :=
+  ⟨transpileRaw_confined cfg c h hh ms, transpileDown_confined cfg c h m15 hm hh ms⟩
+
+/-- **prof_selector_confined.** For every selector list (pseudo-labels, key/value selectors, any operators) the
+    Pyroscope fingerprint query keeps both date bounds: a fingerprint it returns has an index row whose date lies
+    between the UTC date of `From − 30 min` and the UTC date of `To` (byte order of `YYYY-MM-DD`), and both
+    comparisons are rendered with the operators `>=` / `<=` (regenerated table of `sql_select`). At most 63
+    key/value selectors (the recorded limit of the bit-set scheme, C17). -/
+theorem prof_selector_confined (re : Bytes → Bytes → Bool) (table : String) (fromNs toNs : Int) (sels : List Prof.Selector)
+    (h63 : (sels.filter (fun s => !Prof.isGlobal s)).length ≤ 63) (tbl : List Prof.PRow) (f : Nat) :
+    ∃ q, Prof.profSelector table fromNs toNs sels = some q ∧
+      q.fromDate = Time.formatFromDate fromNs ∧ q.toDate = Time.formatDate (secOf toNs) ∧
+      Prom.fnOf "Ge" = ">=" ∧ Prom.fnOf "Le" = "<=" ∧
+      (f ∈ q.eval re Gen.PromSelect.shiftWidth tbl →
+        ∃ r ∈ tbl, r.fp = f ∧ Prom.bytesLe (Time.formatFromDate fromNs) r.date = true ∧
+          Prom.bytesLe r.date (Time.formatDate (secOf toNs)) = true) := by
+  obtain ⟨q, hq, hiff⟩ := Prof.plan_correct re _ table (Time.formatFromDate fromNs) (Time.formatDate (Int.fdiv toNs 1000000000)) sels
+    (Nat.le_trans h63 (by decide : 63 ≤ Gen.PromSelect.shiftWidth)) h63 tbl f
+  have hd : ∀ (ss : List Prof.Selector) (q' : Prof.PQuery) (a b : Bytes), Prof.plan table a b ss = some q' → q'.fromDate = a ∧ q'.toDate = b := by
+    intro ss
+    induction ss with
+    | nil => intro q' a b h; simp only [Prof.plan, Option.some.injEq] at h; subst h; exact ⟨rfl, rfl⟩
+    | cons s ss ih =>
+      intro q' a b h
+      simp only [Prof.plan] at h
+      split at h
+      · rename_i g q0 _ hq0; injection h with h; subst h; exact ih q0 a b hq0
+      · rename_i k q0 _ hq0; injection h with h; subst h; exact ih q0 a b hq0
+      · cases h
+  obtain ⟨d1, d2⟩ := hd sels q _ _ hq
+  refine ⟨q, hq, d1, by rw [d2, fdiv_sec], by decide, by decide, fun hf => ?_⟩
+  obtain ⟨⟨r, hr, hfp, hdate, _⟩, _⟩ := hiff.mp hf
+  simp only [Prof.dateOk, Bool.and_eq_true] at hdate
+  exact ⟨r, hr, hfp, hdate.1, by rw [← fdiv_sec]; exact hdate.2⟩
+
+/-- **prom_index_confined.** The fingerprint sub-query of the Prometheus path (the LogQL stream selector over
+    Prometheus matchers), for every matcher list of at most 63 matchers: a fingerprint it returns has an index
+    row of the metrics type (or type 0) whose date is not before the UTC date of `From − 30 min`. -/
+theorem prom_index_confined (re : Bytes → Bytes → Bool) (table : String) (fromNs : Int) (tp : Int) (ms : List Prom.Matcher)
+    (h63 : ms.length ≤ 63) (tbl : List Prom.IdxRow) (f : Nat) :
+    ∃ q, Prom.fingerprintsQuery table (Time.formatFromDate fromNs) tp ms = some q ∧
+      (f ∈ q.eval re Gen.PromSelect.shiftWidth tbl →
+        ∃ r ∈ tbl, r.fp = f ∧ Prom.bytesLe (Time.formatFromDate fromNs) r.date = true ∧ (r.type = tp ∨ r.type = 0)) := by
+  obtain ⟨q, hq, hiff⟩ := Prom.fpQuery_correct re _ table (Time.formatFromDate fromNs) tp ms
+    (Nat.le_trans h63 (by decide : 63 ≤ Gen.PromSelect.shiftWidth)) h63 tbl f
+  refine ⟨q, hq, fun hf => ?_⟩
+  obtain ⟨⟨r, hr, hfp, hadm, _⟩, _⟩ := hiff.mp hf
+  simp only [Prom.admissible, Bool.and_eq_true, Bool.or_eq_true, beq_iff_eq] at hadm
+  exact ⟨r, hr, hfp, hadm.1, hadm.2⟩
+
+end Qryn.C13
+
+/-! ## semantic corollaries: what is read lies in the window -/
+namespace Qryn.C13
+open Qryn Qryn.Sql Qryn.LogQL Qryn.Confine
+
+/-- **metric_samples_in_window.** (from C08) Every row the range aggregation of a metric query reads from the
+    samples table lies in the planner's window `[From, To)`; every 15 s slot the shortcut reads from metrics_15s
+    starts in `[From, To)` rounded to the 15 s grid — by `shortcut_bounds_on_grid` less than 15 s outside, and by
+    `shortcut_adds_no_widening` exactly the bucket-aligned window for range queries. -/
+theorem metric_samples_in_window (o : Oracles) (db : Db) (env : Env) (c : MCtx) (q : LogQuery) :
+    (∀ out ∈ evalBodyA o db env (samplesMain c.toCtx q),
+        ∃ t, out.get "timestamp_ns" = .int t ∧ c.fromNs ≤ t ∧ t < c.toNs) ∧
+    (∀ r, optB o env r (some (shortcutWhere c)) = true →
+        ∃ t, r.get "samples.timestamp_ns" = .int t ∧ c.fromNs - 15000000000 < t ∧ t < c.toNs + 15000000000 ∧
+          (r.get "type" = .int (winMetric c (.range ⟨.lra .rate, q, 0, none, none, none⟩)).tp ∨ r.get "type" = .int 0)) := by
+  refine ⟨fun out h => LogQL.window_confined o db env c.toCtx q out h, fun r h => ?_⟩
+  obtain ⟨t, ht, h1, h2⟩ := shortcut_confines o env c r h
+  obtain ⟨a1, _, _⟩ := shortcut_bounds_on_grid c.fromNs
+  obtain ⟨_, b2, _⟩ := shortcut_bounds_on_grid c.toNs
+  refine ⟨t, ht, by omega, by omega, ?_⟩
+  have hc : getTypes c.toCtx ∈ conjuncts (some (shortcutWhere c)) := by
+    have : conjuncts (some (shortcutWhere c)) = [ge (.raw "samples.timestamp_ns") (.int (Int.tdiv c.fromNs slot15 * slot15)),
+        lt (.raw "samples.timestamp_ns") (.int (Int.tdiv c.toNs slot15 * slot15)), getTypes c.toCtx,
+        .isIn (.raw "samples.fingerprint") [.withRef (.named "fp_sel")]] :=
+      conjuncts_and_flat _ (by
+        intro e he
+        simp only [List.mem_cons, List.not_mem_nil, or_false] at he
+        rcases he with rfl | rfl | rfl | rfl
+        · exact splice_logical _ _ (by decide)
+        · exact splice_logical _ _ (by decide)
+        · rfl
+        · rfl)
+    rw [this]; simp
+  exact type_sound o env r _ (getTypes c.toCtx) (getTypes_isTypeFilter c.toCtx) (conjunct_holds o env r _ h _ hc)
+
+/-- **traceql_results_in_window.** (from C11) Which traces the statement of a TraceQL script returns is decided by
+    the index rows inside the window alone: removing every index row whose timestamp is outside `[From, To)` or
+    whose date is outside the window's UTC days changes nothing. -/
+theorem traceql_results_in_window (o : Oracles) (ao : AggOracles) (hp : TraceQL.PermInv ao) (c : TraceQL.Ctx)
+    (d : TraceQL.TraceDb) (hr : c.rndMax = 0) (hcons : TraceQL.DurConsistent d) (script : TraceQL.Script) (X : Sel)
+    (h : TraceQL.rootSel c script = .ok X) (hok : ∀ p ∈ script, TraceQL.SelOk p.1) (env : Env) (tr : Bytes) :
+    (∃ r ∈ evalSelG o ao (d.toDb c) true env X, r.get "trace_id" = .str tr) ↔
+      TraceQL.traceMatches o ao c (d.inWindow c) script tr = true := by
+  have hT := (TraceQL.root_traceSel o ao hp c d hr hcons script X h hok).rows [] env
+  have hX : X.addCols [] = X := by obtain ⟨ws, d', c', f, j, p, w, g, h', ob, l⟩ := X; simp [Sel.addCols]
+  rw [hX] at hT
+  rw [TraceQL.traceMatches_window]
+  exact hT.mem tr
+
+/-- **prom_samples_in_window.** (from C17) The raw-sample scan of the Prometheus path keeps exactly the samples with
+    `From ≤ timestamp_ns ≤ To`. -/
+theorem prom_samples_in_window (fromNs toNs ts : Int) :
+    Prom.scanHolds fromNs toNs ts = true ↔ fromNs ≤ ts ∧ ts ≤ toNs := Prom.scanHolds_iff fromNs toNs ts
+
 end Qryn.C13
